@@ -52,7 +52,7 @@ pub fn check(run: &CellRun) -> Vec<(String, String)> {
 }
 
 /// A handle handed back after an I/O fault is still cached data: for every cell that promotes a
-/// read-only hit, fills a miss or replaces a value, and for every lookup that hits, each call of the operation fails in turn; whatever handle comes back must be
+/// read-only hit, fills a miss or replaces a value, for every lookup that hits and for every set/put, each call of the operation fails in turn; whatever handle comes back must be
 /// read-only, at offset 0 and read as the whole value.
 fn promotion_fault_cases(cell: &Cell, run: &CellRun, rep: &mut Report) {
     use crate::props::c18::{plausible, FailAt};
@@ -69,8 +69,10 @@ fn promotion_fault_cases(cell: &Cell, run: &CellRun, rep: &mut Report) {
         && m.published
         && (matches!(m.first, Some(f) if f >= 1) || cell.contents.len() <= 2);
     // and every plain lookup that hits (the handle is the entry itself, stamped as used on the way out)
+    // by-path and temp-file writes: whatever fails and is retried, nothing becomes visible with write bits
+    let writes = matches!(cell.op, MOp::Set | MOp::Put | MOp::SetTemp | MOp::PutTemp) && cell.has_writer() && cell.checker == 0 && cell.umask == 0o022 && cell.contents.len() <= 2;
     let looks_up = cell.op == MOp::Get && m.first.is_some() && cell.checker == 0 && cell.umask == 0o022 && cell.contents.len() <= 2;
-    if !publishes && !looks_up {
+    if !publishes && !looks_up && !writes {
         return;
     }
     for (k, ev) in run.trace.iter().enumerate() {
@@ -84,6 +86,15 @@ fn promotion_fault_cases(cell: &Cell, run: &CellRun, rep: &mut Report) {
             rep.traces += 1;
             rep.transitions += r2.trace.len() as u64;
             rep.count("promotion_fault_cases", 1);
+            for (rel, node) in write_entries(&r2) {
+                if node.meta.perm() & 0o222 != 0 {
+                    rep.violation(
+                        "exposure:entry-writable-after-fault",
+                        format!("{} with call {} ({}) failing {:?}: {} is visible with mode {:o}", cell.to_json(), k, ev.func, a, rel, node.meta.perm()),
+                        serde_json::json!({"cell": cell.to_json(), "fault_at": k, "fault": format!("{:?}", a)}),
+                    );
+                }
+            }
             if let Some(h) = &r2.outcome.handle {
                 let mut msgs = Vec::new();
                 if h.accmode != libc::O_RDONLY {
